@@ -15,3 +15,4 @@ import MimicProps.C13
 #print axioms MimicProps.C13.client_gets_last
 #print axioms MimicProps.C13.handleQuery_database
 #print axioms MimicProps.C13.database_tracks_client
+#print axioms MimicProps.C13.init_db_is_code
